@@ -269,5 +269,8 @@ impl Selector {
             self.wakeup(id);
         }
         io.timer.borrow_mut().replace(h);
+        // fault site: the caller is descheduled right after arming the timer
+        #[cfg(may_verif)]
+        crate::verif::event(2);
     }
 }
